@@ -45,9 +45,12 @@ type ConnSc struct {
 	DialFail bool `json:"dial_fail,omitempty"`
 	// DialErr: what a failing dial returns: "" connection refused | "eof" an error wrapping io.EOF (a TLS dial whose
 	// server goes away during the handshake) | "closed" wrapping io.ErrClosedPipe | "timeout" a net timeout error
-	DialErr string           `json:"dial_err,omitempty"`
-	Plan    []simnet.FaultAt `json:"plan,omitempty"`
-	Rates   map[string]int   `json:"rates,omitempty"`
+	DialErr string `json:"dial_err,omitempty"`
+	// DialYields / DialMs: the dial takes a while (scheduling points / simulated time) before it returns
+	DialYields int              `json:"dial_yields,omitempty"`
+	DialMs     int              `json:"dial_ms,omitempty"`
+	Plan       []simnet.FaultAt `json:"plan,omitempty"`
+	Rates      map[string]int   `json:"rates,omitempty"`
 }
 
 type CallSc struct {
@@ -156,6 +159,13 @@ func (w *clientWorld) dialer(ctx context.Context) (net.Conn, error) {
 	var cs ConnSc
 	if i < len(w.sc.Conns) {
 		cs = w.sc.Conns[i]
+	}
+	for k := 0; k < cs.DialYields && !w.quiet; k++ {
+		w.s.YieldNow("dial-in-progress")
+	}
+	if cs.DialMs > 0 && !w.quiet {
+		w.s.Faults["slow-dial"]++
+		w.s.Sleep(time.Duration(cs.DialMs) * time.Millisecond)
 	}
 	if err := ctx.Err(); err != nil {
 		// a real dialer gives up when its context is done
